@@ -341,6 +341,11 @@ def current_null_edges(sc, fn):
         bn = flow.branch_on_null(fn, br) if br.op == 'br' else None
         if bn is None: continue
         if is_current_value(sc, fn, bn[0], res): out.add((b, fn.bmap[bn[1]]))
+        else:
+            # `yy_buffer_stack ? yy_buffer_stack[top] : NULL` - no stack, no current buffer (clang branches on the parts of a
+            # conditional operator separately when it is used as a condition)
+            d = fn.def_of(flow.strip_casts(fn, bn[0]))
+            if d is not None and d.op == 'load' and sc.is_var(res.loc(d.ops[0]), 'yy_buffer_stack'): out.add((b, fn.bmap[bn[1]]))
     return out
 
 def entry_reach(cfg, fn, avoid=(), edge_filter=None):
